@@ -1,6 +1,7 @@
 package props
 
 import (
+	"math"
 	"fmt"
 	"io"
 	"math/rand"
@@ -65,6 +66,14 @@ func c02ops(slot, l int) []fsx.Step {
 			ops = append(ops, fsx.Step{K: "H.Seek", Slot: slot, Off: off, Whence: wh})
 		}
 		ops = append(ops, fsx.Step{K: "H.Truncate", Slot: slot, Off: off})
+	}
+	// offsets at the edge of int64 (off+len overflows): no Truncate here - a file system that honours it would allocate
+	for _, off := range []int64{math.MaxInt64, math.MaxInt64 - 1, math.MinInt64} {
+		// (no ReadAt: pread(2) answers EINVAL for offsets whose end overflows, a kernel rule; "beyond the end" is EOF otherwise)
+		ops = append(ops, fsx.Step{K: "H.WriteAt", Slot: slot, Data: "WA", Off: off})
+		for _, wh := range []int{io.SeekStart, io.SeekCurrent, io.SeekEnd} {
+			ops = append(ops, fsx.Step{K: "H.Seek", Slot: slot, Off: off, Whence: wh})
+		}
 	}
 	ops = append(ops, fsx.Step{K: "H.Write", Slot: slot, Data: "WRITE"}, fsx.Step{K: "H.Write", Slot: slot, Data: ""}, fsx.Step{K: "H.Write", Slot: slot, Data: strings.Repeat("L", 4200)},
 		fsx.Step{K: "H.Stat", Slot: slot}, fsx.Step{K: "H.Close", Slot: slot})
@@ -394,6 +403,13 @@ func c02run(env *core.Env, idx int) core.CaseResult {
 		case "H.Read", "H.ReadAt":
 			rFail := rr.Err != "ok" && rr.Err != "EOF"
 			sFail := sr.Err != "ok" && sr.Err != "EOF"
+			if st.N > 0 && rr.Err == "ErrInvalid" && (st.K == "H.Read" && refOff > math.MaxInt64-(1<<20) || st.K == "H.ReadAt" && st.Off > math.MaxInt64-(1<<20)) {
+				// read(2)/pread(2) answer EINVAL when offset+length overflows: a rule of the kernel, not of files. A file system
+				// may just as well say end-of-file there; only a panic or delivered bytes would be wrong.
+				if sr.Panic == "" && sr.N == 0 {
+					continue
+				}
+			}
 			switch {
 			case rFail != sFail:
 				bad("got="+c02out(sr)+",want="+c02out(rr), "read outcome differs")
